@@ -4,6 +4,7 @@ from concurrent.futures import ThreadPoolExecutor
 from .. import core, pipe, itergen as IG
 from .c03 import report_compile_failures
 
+from ..core import COMMON_DIMENSIONS
 PROP = "C04"
 SIZES = dict(quick=dict(full_masks=5, sampled=40, mcV=7), thorough=dict(full_masks=7, sampled=600, mcV=10))
 
@@ -74,6 +75,8 @@ def run(tier, seed, rep):
                        "parameters, + %d sampled masks on up to 12 variants; per definition: iter().collect(), iter().rev().collect(), "
                        "per-item payload == Default, EnumCount::COUNT, len(); distinct_nontrivial = distinct masks with at least one "
                        "disabled variant" % (sz["full_masks"], sz["sampled"]))
+    rep.cov["rule"] += ' + a self-referential enum whose Default goes through iter(); enums of 270 and 300 variants'
+    rep.cov["rule"] += COMMON_DIMENSIONS
     rep.cov["samples"] = [dict(def_=e["def"], mask=[v["dis"] for v in by_id[e["def"]]["variants"]], fwd=e["fwd"], count=e["count"]) for e in evs[20:24]]
     rep.assumptions += ["rustc/cargo, the 1:1 printer and the generated decl_index/payload comparisons are trusted"]
     return rep
